@@ -44,16 +44,47 @@ def _needs_pi(m, i):
     return None
 
 
+def kekulizable(m):
+    """Independent decision (standard aromatic kinds only): does an alternating single/double assignment exist?
+    -> True / False / None (None: some aromatic atom is of a kind not judged here).  Uses networkx's blossom matching."""
+    import networkx as nx
+    need = {}
+    for i, a in enumerate(m.atoms):
+        if a.aromatic:
+            if not any(m.order(i, j) == 1.5 for j in m.adjacent(i)):
+                continue
+            r = _needs_pi(m, i)
+            if r is None:
+                return None
+            need[i] = r
+    g = nx.Graph()
+    nodes = [i for i, r in need.items() if r]
+    g.add_nodes_from(nodes)
+    for (i, j), o in m.bonds.items():
+        if o == 1.5 and need.get(i) and need.get(j):
+            g.add_edge(i, j)
+    mt = nx.max_weight_matching(g, maxcardinality=True)
+    return 2 * len(mt) == len(nodes)
+
+
 def analyze(s, reencode=True, stereo=True):
     out = []
     try:
         m_in = R.read_smiles(s)
     except R.SmilesSyntaxError as e:
         return [('skip', 'oracle rejects input: %s' % e.reason)]
+    kek = kekulizable(m_in) if any(a.aromatic for a in m_in.atoms) else None
     try:
         sel = sf.encoder(s)
     except sf.EncoderError as e:
-        return [('rejected', str(e).split('\n')[0])]
+        first = str(e).split('\n')[0]
+        if kek is True:
+            return [('C05:complete', 'an alternating single/double assignment exists for %r (standard aromatic atom '
+                     'kinds) but the encoder raised EncoderError: %s' % (s, first))]
+        return [('rejected', first)]
+    if kek is False:
+        out.append(('C05:rejects-unkekulizable', 'no alternating assignment exists for %r but the encoder returned %r'
+                    % (s, sel)))
     try:
         smi = sf.decoder(sel)
     except Exception as e:
